@@ -843,3 +843,276 @@ def check_C18(tier, seed):
     import shutil
     shutil.rmtree(wd, ignore_errors=True)
     return 1 if nviol else 0
+
+
+# ---------------------------------------------------------------- C06 / C07: algebraic certificates
+ENGINES7 = ["xoroshiro64", "xoroshiro128", "xoroshiro128pp", "xoshiro128", "xoshiro256", "xoshiro512", "xorshift128"]
+JUMP_ENGINES = ["xoroshiro128", "xoroshiro128pp", "xoshiro128", "xoshiro256", "xoshiro512"]
+ENGINE_KINDS = {"xoroshiro64": ["Xoroshiro64Star", "Xoroshiro64StarStar"], "xoroshiro128": ["Xoroshiro128Plus", "Xoroshiro128StarStar"],
+                "xoroshiro128pp": ["Xoroshiro128PlusPlus"], "xoshiro128": ["Xoshiro128Plus", "Xoshiro128PlusPlus", "Xoshiro128StarStar"],
+                "xoshiro256": ["Xoshiro256Plus", "Xoshiro256PlusPlus", "Xoshiro256StarStar"],
+                "xoshiro512": ["Xoshiro512Plus", "Xoshiro512PlusPlus", "Xoshiro512StarStar"], "xorshift128": ["XorShiftRng"]}
+
+
+def run_certificates(wd, tasks, maxpar=14):
+    """tasks: list of (engine, task). Runs ALG_Engine for each; returns {(engine, task): (ok, line, wall)}.
+    A certificate that does not verify is a TOOL error (bad hint or bad transcription), never a verdict about the code."""
+    import concurrent.futures, subprocess
+    hints = os.path.join(wd, "hints.json")
+    p = subprocess.run([sys.executable, os.path.join(vlib.ROOT, "tools", "gf2hints.py"), hints], stdout=subprocess.PIPE, stderr=subprocess.STDOUT, text=True)
+    if p.returncode != 0:
+        raise ToolError("hint generator failed: " + p.stdout[-1000:])
+    hj = json.load(open(hints))
+
+    def one(et):
+        e, t = et
+        r = vlib.run_tlc(os.path.join(vlib.SPEC, "alg", "ALG_Engine.tla"), os.path.join(vlib.SPEC, "alg", "ALG_Engine.cfg"),
+                         os.path.join(wd, "meta_%s_%s" % (e, t)), env={"HINTS": hints, "ENGINE": e, "TASK": str(t)}, timeout=3000, xmx="3g")
+        lines = [ln for ln in r["out"].splitlines() if ln.startswith("<<") and ('"KRYLOV"' in ln or '"XPOW"' in ln or '"ORDER"' in ln or '"JUMP"' in ln)]
+        if not lines:
+            lines = vlib.extract_tuples(r["out"], "KRYLOV") + vlib.extract_tuples(r["out"], "XPOW") + vlib.extract_tuples(r["out"], "ORDER") + vlib.extract_tuples(r["out"], "JUMP")
+        return et, (r["completed"], lines[0] if lines else r["out"][-800:], r["wall"])
+    # heavy tasks first
+    tasks = sorted(tasks, key=lambda et: -hj[et[0]]["n"])
+    out = {}
+    with concurrent.futures.ThreadPoolExecutor(max_workers=maxpar) as ex:
+        for et, res in ex.map(one, tasks):
+            out[et] = res
+    return out, hj
+
+
+def jump_conformance_corpus(seed, tier):
+    import random
+    rng = random.Random(seed * 1000003 + 6)
+    S = vlib.Sched()
+    full_basis_kinds = {"Xoroshiro128Plus", "Xoroshiro128PlusPlus", "Xoshiro128Plus", "Xoshiro256Plus", "Xoshiro512Plus"} if tier != "quick" else set()
+    for kind in corpora.XO_JUMP:
+        wb = corpora.WORDBYTES[kind]
+        nb = 8 * corpora.SEEDLEN[kind]
+        nat = corpora.native_op(kind)
+        bits = list(range(nb)) if kind in full_basis_kinds else sorted(set(rng.sample(range(nb), 6) + [0, nb - 1]))
+        chunk = 8
+        for lo in range(0, len(bits), chunk):
+            ops = []
+            for b in bits[lo:lo + chunk]:
+                for j in ("jump", "long_jump"):
+                    ops += [{"op": "from_seed", "g": 1, "kind": kind, "seed": corpora.unit_seed(kind, b)}, {"op": j, "g": 1}, {"op": nat, "g": 1, "n": 2}]
+            S.case("%s jump of unit states %d.." % (kind, bits[lo]), ops, weight=len(ops) * nb // 8)
+        ops = []
+        for r in range(8 if tier == "quick" else 48):
+            sd = [rng.getrandbits(8) for _ in range(corpora.SEEDLEN[kind])]
+            # jump, long_jump and stepping commute: record several orders from one seed
+            order = rng.choice([["jump", "long_jump"], ["long_jump", "jump"], ["jump", "jump"], ["jump"], ["long_jump"]])
+            ops.append({"op": "from_seed", "g": 1, "kind": kind, "seed": sd})
+            ops.append({"op": nat, "g": 1, "n": rng.randrange(0, 4)})
+            for j in order:
+                ops.append({"op": j, "g": 1})
+                ops.append({"op": nat, "g": 1, "n": 3})
+        S.case("%s jump of random states" % kind, ops, weight=len(ops) * nb // 8)
+    return S
+
+
+def check_C06(tier, seed):
+    t0 = time.time()
+    wd = vlib.workdir("alg-C06")
+    tasks = [(e, "krylov") for e in JUMP_ENGINES] + [(e, "jump") for e in JUMP_ENGINES]
+    res, hj = run_certificates(wd, tasks)
+    bad = {k: v for k, v in res.items() if not v[0]}
+    if bad:
+        raise ToolError("certificate did not verify (hint or transcription problem, not a verdict about the code): %r" % {k: v[1][:300] for k, v in bad.items()})
+    S = jump_conformance_corpus(seed, tier)
+    rc = trace_check("C06", tier, seed, S, "Trace_Alg.tla", "Trace_Alg.cfg", weight=lambda evs: sum(40 if ev.get("e") in ("jump", "long_jump") else 1 for ev in evs),
+                     rule="(1) for each of the 5 jump-capable engines TLC checks the certificate: the Krylov vectors T^i e0 have rank n and P(T)e0 = 0 for the hinted P, so P(T) = 0; x^(2^(n/2)) = JUMP(x) and x^(2^(3n/4)) = LONG_JUMP(x) in GF(2)[x]/P with the published constants read word 0 / bit 0 first - hence the reference jump loop equals 2^(n/2) resp. 2^(3n/4) steps from EVERY state and commutes with stepping; (2) the real jump()/long_jump() of all 12 types are applied to unit-bit states (full basis for one type per macro arm in thorough) and random states, in several orders, and Trace_Alg requires the resulting state image and following outputs to equal the reference jump loop. distinct = distinct recorded events",
+                     assumptions=COMMON_ASSUME + ["the hinted polynomial is untrusted and fully re-checked inside TLC", "linearity of the implementation's jump is sampled (unit + random states); a wrong polynomial word or loop bound changes the image of every non-zero state"],
+                     extra_cov={"certificates": {"%s:%s" % k: {"verified": v[0], "tlc_wall_s": round(v[2], 1), "result": v[1][:200]} for k, v in res.items()},
+                                "obligations": len(tasks), "discharged": len(tasks), "exhaustive": True,
+                                "exhaustive_scope": "the certificate decides jump = T^(2^(n/2)), long_jump = T^(2^(3n/4)) for all 2^n states of the TLA+ engines; the binding to the code is by conformance on a basis sample + random states"})
+    return rc
+
+
+def c07_basis_corpus(seed, tier):
+    """every unit-bit seed of all 15 linear types stepped ONCE (the columns of the transition matrix),
+    plus random seeds stepped once (linearity samples)"""
+    import random
+    rng = random.Random(seed * 1000003 + 7)
+    S = vlib.Sched()
+    for kind in corpora.LINEAR:
+        nb = 8 * corpora.SEEDLEN[kind]
+        nat = corpora.native_op(kind)
+        for lo in range(0, nb, 64):
+            ops = []
+            for b in range(lo, min(nb, lo + 64)):
+                ops += [{"op": "from_seed", "g": 1, "kind": kind, "seed": corpora.unit_seed(kind, b), "tag": ["col", b]}, {"op": nat, "g": 1, "n": 1, "tag": ["colimg", b]}]
+            S.case("%s basis %d" % (kind, lo), ops)
+        ops = []
+        for r in range(24 if tier == "quick" else 200):
+            sd = [rng.getrandbits(8) for _ in range(corpora.SEEDLEN[kind])]
+            ops += [{"op": "from_seed", "g": 1, "kind": kind, "seed": sd, "tag": ["smp", r]}, {"op": nat, "g": 1, "n": 1, "tag": ["smpimg", r]}]
+        S.case("%s samples" % kind, ops)
+    return S
+
+
+def words_to_int(ws):
+    v, sh = 0, 0
+    for w in ws:
+        for l in w:
+            v |= l << sh
+            sh += 16
+    return v
+
+
+def extract_matrix(events, kind):
+    """(n, cols, samples) of the code's step map from the recorded state images; None if unusable"""
+    n = 8 * corpora.SEEDLEN[kind]
+    cols, smp_in, samples = {}, {}, []
+    cur_in = None
+    for ev in events:
+        tag = ev.get("tag")
+        if not tag or ev.get("kind", kind) != kind and ev.get("e") == "from_seed":
+            continue
+        if "obs" not in ev or "s" not in ev["obs"]:
+            continue
+        v = words_to_int(ev["obs"]["s"])
+        if tag[0] == "col":
+            cur_in = ("col", tag[1], v)
+        elif tag[0] == "colimg" and cur_in and cur_in[0] == "col" and cur_in[1] == tag[1]:
+            if cur_in[2] != (1 << tag[1]):
+                return None            # from_seed did not produce the unit state: the step map cannot be isolated
+            cols[tag[1]] = v
+        elif tag[0] == "smp":
+            cur_in = ("smp", tag[1], v)
+        elif tag[0] == "smpimg" and cur_in and cur_in[0] == "smp" and cur_in[1] == tag[1]:
+            samples.append([cur_in[2], v])
+    if len(cols) != n:
+        return None
+    return n, [cols[i] for i in range(n)], samples
+
+
+def kernel_vector(n, cols):
+    """UNTRUSTED hint: a non-zero v with M v = 0, or None"""
+    basis = {}
+    for i, c in enumerate(cols):
+        v, comb = c, 1 << i
+        while v:
+            t = v.bit_length() - 1
+            if t in basis:
+                v ^= basis[t][0]; comb ^= basis[t][1]
+            else:
+                basis[t] = (v, comb)
+                break
+        if not v:
+            return comb
+    return None
+
+
+def decide_extracted(wd, kind, n, cols, samples, binp):
+    """Run the certificate on a transition matrix extracted from the code.
+    Returns ("holds"|"undecided"|"violated", detail dict)."""
+    import subprocess, re
+    mpath, hpath = os.path.join(wd, "matrix_%s.json" % kind), os.path.join(wd, "hints_%s.json" % kind)
+    name = "code:" + kind
+    json.dump({name: {"kind": kind, "n": n, "cols": [str(c) for c in cols], "samples": [[str(a), str(b)] for a, b in samples[:64]]}}, open(mpath, "w"))
+    p = subprocess.run([sys.executable, os.path.join(vlib.ROOT, "tools", "gf2hints.py"), hpath, mpath], stdout=subprocess.PIPE, stderr=subprocess.STDOUT, text=True)
+    if p.returncode != 0:
+        raise ToolError("hint generator failed on the extracted matrix: " + p.stdout[-1000:])
+    hj = json.load(open(hpath))[name]
+
+    def task(t):
+        r = vlib.run_tlc(os.path.join(vlib.SPEC, "alg", "ALG_Engine.tla"), os.path.join(vlib.SPEC, "alg", "ALG_Engine.cfg"),
+                         os.path.join(wd, "metax_%s_%s" % (kind, t)), env={"HINTS": hpath, "ENGINE": name, "TASK": str(t)}, timeout=3000, xmx="3g")
+        tup = " ".join(sum((vlib.extract_tuples(r["out"], tg) for tg in ("LINEAR", "KRYLOV", "XPOW", "ORDER")), []))
+        return r, tup
+    r, tup = task("linear")
+    m = re.search(r'"disagree", (\d+), "matrix rank", (\d+)', tup)
+    if not m:
+        raise ToolError("ALG_Engine linear task gave no result:\n" + r["out"][-1500:])
+    if int(m.group(1)) > 0:
+        return "undecided", {"why": "the code's step is not GF(2)-linear on the sampled states (see C01/C04)", "tlc": tup}
+    if int(m.group(2)) < n:
+        k = kernel_vector(n, cols)
+        sd = list(k.to_bytes(n // 8, "little"))
+        nat = corpora.native_op(kind)
+        ops = [{"op": "reset"}, {"op": "from_seed", "g": 1, "kind": kind, "seed": sd}, {"op": nat, "g": 1, "n": 1, "tag": ["confirm", "zero", 1]}]
+        cs, ct = os.path.join(wd, "k.ndjson"), os.path.join(wd, "kt.ndjson")
+        vlib.write_ndjson(cs, ops)
+        vlib.drive(binp, cs, ct)
+        evs = vlib.read_ndjson(ct)
+        zero = any(ev.get("tag") == ["confirm", "zero", 1] and all(l == 0 for w in ev.get("obs", {}).get("s", [[1]]) for l in w) for ev in evs)
+        if zero and any(sd):
+            return "violated", {"why": "the step map is singular: a non-zero state steps to the all-zero state", "schedule": ops, "seed": sd, "tlc": tup}
+        return "undecided", {"why": "rank-deficient matrix but the kernel vector did not reproduce on the code", "tlc": tup}
+    r, tup = task("krylov")
+    mk = re.search(r'"rank", (\d+), "P\(T\)e0 = 0", (TRUE|FALSE)', tup)
+    if not mk:
+        raise ToolError("ALG_Engine krylov task gave no result:\n" + r["out"][-1500:])
+    if int(mk.group(1)) < n:
+        # TLC computed the Krylov space of a NON-ZERO state itself (no hint involved): it is a proper
+        # T-invariant subspace, so the cycle through that state cannot visit all 2^n - 1 non-zero states
+        e0 = vlib.from_limbs(hj["e0"])
+        return "violated", {"why": "the states T^i e0 (e0 = 0x%x) span only a %s-dimensional T-invariant subspace of the %d-bit state space: the cycle through e0 has at most 2^%s - 1 states, not 2^%d - 1" % (e0, mk.group(1), n, mk.group(1), n),
+                            "tlc": tup}
+    if mk.group(2) != "TRUE":
+        raise ToolError("hint for the extracted matrix did not verify: " + tup[:300])
+    failed = []
+    r, tup = task("xpow")
+    if '"x^(2^n) = x", TRUE' not in tup:
+        failed.append("x^(2^n) # x in GF(2)[x]/P: T^(2^n - 1) # I, so not every non-zero state lies on a cycle of length 2^n - 1")
+    for j in range(1, len(hj["primes"]) + 1):
+        r, tup = task(j)
+        if '"x^cofactor # 1", TRUE' not in tup:
+            q = vlib.from_limbs(hj["primes"][j - 1])
+            failed.append("x^((2^n-1)/%d) = 1: T^((2^n-1)/%d) = I, every cycle length divides (2^n-1)/%d" % (q, q, q))
+    if failed:
+        return "violated", {"why": "; ".join(failed), "matrix_columns_hex": ["%x" % c for c in cols[:4]] + ["..."]}
+    return "holds", {"why": "the code's engine differs from the reference but the certificate verifies on its own transition matrix (full period); the difference is C01's business"}
+
+
+def check_C07(tier, seed):
+    t0 = time.time()
+    wd = vlib.workdir("alg-C07")
+    nprimes = {"xoroshiro64": 7, "xoroshiro128": 9, "xoroshiro128pp": 9, "xoshiro128": 9, "xorshift128": 9, "xoshiro256": 11, "xoshiro512": 13}
+    tasks = []
+    for e in ENGINES7:
+        tasks += [(e, "krylov"), (e, "xpow")] + [(e, j) for j in range(1, nprimes[e] + 1)]
+    res, hj = run_certificates(wd, tasks)
+    bad = {k: v for k, v in res.items() if not v[0]}
+    if bad:
+        raise ToolError("certificate did not verify (hint or transcription problem, not a verdict about the code): %r" % {"%s:%s" % k: v[1][:300] for k, v in bad.items()})
+    # binding: the code's transition matrix is the specification's T on the complete basis (+ random states)
+    S = c07_basis_corpus(seed, tier)
+    events, cases, tres = run_trace("C07", S, "Trace_Alg.tla", "Trace_Alg.cfg")
+    nviol, notes, decided = 0, [], {}
+    by_id = {c["id"]: c for c in S.cases}
+    kinds_off = sorted({by_id[r["case"]]["label"].split(" ")[0] for r in tres["rejected"] if r["case"] in by_id})
+    binp = vlib.build_harness()
+    for kind in kinds_off:
+        # the code's engine is not the reference engine: decide C07 on the code's own matrix
+        kevents = [ev for cid, evs in cases if cid in by_id and by_id[cid]["label"].split(" ")[0] == kind for ev in evs]
+        ex = extract_matrix(kevents, kind)
+        if ex is None:
+            decided[kind] = ("undecided", {"why": "the transition matrix could not be extracted (from_seed does not yield the unit states, or no state image)"})
+        else:
+            decided[kind] = decide_extracted(wd, kind, ex[0], ex[1], ex[2], binp)
+        verdict, detail = decided[kind]
+        if verdict == "violated":
+            nviol += 1
+            path = vlib.write_replay("C07", {"property": "C07", "case": "engine of " + kind, "signature": "period|" + kind,
+                                             "schedule": detail.get("schedule"), "detail": detail,
+                                             "how": "tools/vcheck C07 re-extracts the transition matrix of the code and re-checks the certificate"})
+            print("VIOLATION property=C07 replay=%s" % path)
+            print("  %s: %s" % (kind, detail["why"][:400]))
+        else:
+            print("NOTE property=C07 %s: engine differs from the reference; C07 %s: %s" % (kind, verdict, detail["why"][:300]))
+    cov = base_cov([(events, cases, tres)], "(1) for each of the 7 distinct linear engines TLC checks the certificate: Krylov rank n and P(T)e0 = 0 (so GF(2)[x]/P -> V, f |-> f(T)e0 is an isomorphism carrying x to T), x^(2^n) = x, the listed primes multiply to 2^n - 1, and for every prime q: cofactor*q = 2^n - 1 and x^cofactor # 1 - so x has order exactly 2^n - 1, GF(2)[x]/P is a field and T is a bijection permuting the 2^n - 1 non-zero states in a single cycle; (2) the transition matrix of every one of the 15 linear generator types is extracted from the real code on the complete basis of unit-bit seeds (plus random seeds for linearity) and validated by TLC against the specification's T; (3) if a type's matrix differs from the reference, the same certificate is run on the extracted matrix and a violation is reported only with a certificate (a non-zero state stepping to zero, replayed on the code; or T^((2^n-1)/q) = I; or T^(2^n-1) # I). distinct = distinct recorded events", ["Trace_Alg", "ALG_Engine"])
+    cov["certificates"] = {"%s:%s" % k: {"verified": v[0], "tlc_wall_s": round(v[2], 1), "result": v[1][:160]} for k, v in sorted(res.items(), key=lambda kv: str(kv[0]))}
+    cov["obligations"] = len(tasks)
+    cov["discharged"] = len(tasks)
+    cov["types_whose_matrix_equals_the_reference"] = len(corpora.LINEAR) - len(kinds_off)
+    cov["types_decided_on_their_own_matrix"] = {k: v[0] for k, v in decided.items()}
+    cov["exhaustive"] = True
+    cov["exhaustive_scope"] = "the certificate decides the single-cycle property for all 2^n - 1 non-zero states of each engine (n = 64, 128, 256, 512); the binding to the code is the complete transition matrix on the basis"
+    vlib.write_evidence("C07", tier, seed, "model_checking", cov,
+                        COMMON_ASSUME + ["the prime factorisation of 2^n - 1 (Fermat numbers F0..F8) is the published one; TLC re-multiplies the primes and cofactors but does not re-prove primality of the factors",
+                                         "hinted polynomials, cofactors and kernel vectors are untrusted and fully re-checked (inside TLC, or by replay on the code)", "linearity of the implementation is sampled by random seeds"],
+                        time.time() - t0, nviol)
+    return 1 if nviol else 0
